@@ -16,26 +16,47 @@
 extern size_t gk;                       /* arbitrary byte index (byte primitives) */
 extern size_t gke;                      /* arbitrary element index (16/32-bit primitives) */
 extern unsigned long g_ev, g_last_store, g_last_barrier;
+/* The ghost event clock (C18) is part of the contract only where the contract REPLACES the
+ * primitive (callers: "a store event happened here"); when the contract is ENFORCED on the real
+ * body (contracts/mem/prims.spec.c, -DPRIM_ENFORCE) the clock clauses are left out - the body
+ * has no ghost code. */
+#ifdef PRIM_ENFORCE
+#define PRIM_CLOCK_ENSURES
+#define PRIM_CLOCK_ASSIGNS
+/* ghost bindings for the loop invariants: the entry value of len and of the source element */
+#include "ghost_prim.h"
+#define PRIM_GHOST_SET __CPROVER_requires(len == g_len0)
+#define PRIM_GHOST_MOVE(T, idx) __CPROVER_requires(len == g_len0) __CPROVER_requires(idx < len ==> ((const T *)src)[idx * (size_t)(idx < len)] == (T)g_old)
+#else
+#define PRIM_GHOST_SET
+#define PRIM_GHOST_MOVE(T, idx)
+#define PRIM_CLOCK_ENSURES __CPROVER_ensures(g_ev == __CPROVER_old(g_ev) + 1 && g_last_store == g_ev)
+#define PRIM_CLOCK_ASSIGNS , g_ev, g_last_store
+#endif
 
 void mem_prim_set(void *dest, uint32_t len, uint8_t value)
+PRIM_GHOST_SET
 __CPROVER_requires(len == 0 || __CPROVER_w_ok(dest, len))
-__CPROVER_assigns(__CPROVER_object_upto(dest, len), g_ev, g_last_store)
+__CPROVER_assigns(__CPROVER_object_upto(dest, len) PRIM_CLOCK_ASSIGNS)
 __CPROVER_ensures(gk < len ==> ((uint8_t *)dest)[gk] == value)
-__CPROVER_ensures(g_ev == __CPROVER_old(g_ev) + 1 && g_last_store == g_ev)
+PRIM_CLOCK_ENSURES
 ;
 void mem_prim_set16(uint16_t *dest, uint32_t len, uint16_t value)
+PRIM_GHOST_SET
 __CPROVER_requires(len == 0 || __CPROVER_w_ok(dest, (size_t)len * 2))
-__CPROVER_assigns(__CPROVER_object_upto(dest, (size_t)len * 2), g_ev, g_last_store)
+__CPROVER_assigns(__CPROVER_object_upto(dest, (size_t)len * 2) PRIM_CLOCK_ASSIGNS)
 __CPROVER_ensures(gke < len ==> dest[gke] == value)
-__CPROVER_ensures(g_ev == __CPROVER_old(g_ev) + 1 && g_last_store == g_ev)
+PRIM_CLOCK_ENSURES
 ;
 void mem_prim_set32(uint32_t *dest, uint32_t len, uint32_t value)
+PRIM_GHOST_SET
 __CPROVER_requires(len == 0 || __CPROVER_w_ok(dest, (size_t)len * 4))
-__CPROVER_assigns(__CPROVER_object_upto(dest, (size_t)len * 4), g_ev, g_last_store)
+__CPROVER_assigns(__CPROVER_object_upto(dest, (size_t)len * 4) PRIM_CLOCK_ASSIGNS)
 __CPROVER_ensures(gke < len ==> dest[gke] == value)
-__CPROVER_ensures(g_ev == __CPROVER_old(g_ev) + 1 && g_last_store == g_ev)
+PRIM_CLOCK_ENSURES
 ;
 void mem_prim_move(void *dest, const void *src, uint32_t len)
+PRIM_GHOST_MOVE(uint8_t, gk)
 __CPROVER_requires(len > 0)
 __CPROVER_requires(__CPROVER_w_ok(dest, len))
 __CPROVER_requires(__CPROVER_r_ok(src, len))
@@ -43,16 +64,19 @@ __CPROVER_assigns(__CPROVER_object_upto(dest, len))
 __CPROVER_ensures(gk < len ==> ((uint8_t *)dest)[gk] == __CPROVER_old(((const uint8_t *)src)[gk * (size_t)(gk < len)]))
 ;
 void mem_prim_move8(uint8_t *dest, const uint8_t *src, uint32_t len)
+PRIM_GHOST_MOVE(uint8_t, gk)
 __CPROVER_requires(len > 0 && __CPROVER_w_ok(dest, len) && __CPROVER_r_ok(src, len))
 __CPROVER_assigns(__CPROVER_object_upto(dest, len))
 __CPROVER_ensures(gk < len ==> dest[gk] == __CPROVER_old(src[gk * (size_t)(gk < len)]))
 ;
 void mem_prim_move16(uint16_t *dest, const uint16_t *src, uint32_t len)
+PRIM_GHOST_MOVE(uint16_t, gke)
 __CPROVER_requires(len > 0 && __CPROVER_w_ok(dest, (size_t)len * 2) && __CPROVER_r_ok(src, (size_t)len * 2))
 __CPROVER_assigns(__CPROVER_object_upto(dest, (size_t)len * 2))
 __CPROVER_ensures(gke < len ==> dest[gke] == __CPROVER_old(src[gke * (size_t)(gke < len)]))
 ;
 void mem_prim_move32(uint32_t *dest, const uint32_t *src, uint32_t len)
+PRIM_GHOST_MOVE(uint32_t, gke)
 __CPROVER_requires(len > 0 && __CPROVER_w_ok(dest, (size_t)len * 4) && __CPROVER_r_ok(src, (size_t)len * 4))
 __CPROVER_assigns(__CPROVER_object_upto(dest, (size_t)len * 4))
 __CPROVER_ensures(gke < len ==> dest[gke] == __CPROVER_old(src[gke * (size_t)(gke < len)]))
